@@ -49,7 +49,7 @@ TABLE['C01'] = {
 
 TABLE['C04'] = {
     'validate': ['make'],
-    'modules': ['contracts.make', 'contracts.ninja', 'contracts.bounded_cmd'],
+    'modules': ['contracts.make', 'contracts.ninja', 'contracts.bounded_cmd', 'contracts.emitters'],
     'level': 'proof',
     'assumptions': SH_ASSUME + MK_ASSUME + NJ_ASSUME + [
         'representable Make names: printable ASCII without backslash, * ? [ ] ; = tab, not starting with ~, not ending in blank or & (the property\'s own exclusions; no escaping accepted by GNU make exists for them)',
@@ -99,7 +99,7 @@ TABLE['C03'] = {
         'Makefile._target_str / NinjaFile._output_str are abstracted as an uninterpreted function from the thing to its escaped text (their injectivity up to the escape is C04)',
         'the invariant is proved at an arbitrary target text x (ghost constant); sets are updated pointwise',
         'command_build is verified for implicit-dependency lists of length 0, 1, 2 and None (list concatenation is uniform in the length; not an induction)',
-        'emitter contracts (contracts/emitters.py): the step object is abstract (arbitrary field values), its dependency lists have the lengths 0..2 (list concatenation is uniform in the length; not an induction), callees (multitarget_rule, command_build, Makefile.rule / NinjaFile.build / rule / define, the tool objects, flags_vars, _install_files, _build_commands ...) are recorded opaque calls with abstract results; Variable objects for plain-word names are constructed without the constructor\'s re.sub (it only rewrites non-word characters)',
+        'emitter contracts (contracts/emitters.py): the step object is abstract (arbitrary field values), its dependency lists have the lengths 0..2 (list concatenation is uniform in the length; not an induction), callees (multitarget_rule, command_build, Makefile.rule / NinjaFile.build / default / rule / define, the tool objects, flags_vars, _install_files, _build_commands ...) are recorded opaque calls with abstract results; Variable objects for plain-word names are constructed without the constructor\'s re.sub (it only rewrites non-word characters)',
     ],
     'trusted_base': ['PyVC (pyvc/*.py) incl. dict/set model', 'z3 5.1.0'],
     'not_covered': ['per-builtin emitters (make_compile, ninja_link, ...) listing every consumed file', 'multitarget_rule stamp files', 'Edge registration, BuildRuleHandler dispatch',
@@ -269,7 +269,7 @@ TABLE['C06'] = {
     'modules': ['contracts.crossbackend', 'contracts.emitters'],
     'level': 'other',
     'explanation': 'a relational property across three hand-written emitters per builtin over duck-typed rule objects. Proved (deductive, abstract step object, dependency lists of length 0..2): the Make and the Ninja emitter of custom steps (command / build_step) each hand their backend exactly one description of the step -- outputs, every consumed file (files and extra_deps), the command line with its environment, always-outdated iff declared -- so the two build files agree on such steps. For all other builtins no product-program contract was built (the emitter kernels under contract are claimed under C01/C02/C03). The check is a bounded runtime contract on the real pipeline: seven generated projects (libraries with forwarded options, tests with an environment, install, pkg-config, alias; build_step / command / copy_file with blanks, `$` and quotes in names and options) are configured for Make and for Ninja by the tree under test. GNU make reports the Make side itself (make -n -B for command lines, make -pn for the dependency relation); build.ninja is read with the evaluator specs/ninja_eval.py; compile_commands.json of each backend is matched against the compile steps of that backend. Compared: buildable file targets, dependency relation, argument lists (program, arguments, environment assignments) of every build step and of test / install / uninstall / dist.',
-    'assumptions': ['emitter contracts (contracts/emitters.py): the step object is abstract (arbitrary field values), its dependency lists have the lengths 0..2 (list concatenation is uniform in the length; not an induction), callees (multitarget_rule, command_build, Makefile.rule / NinjaFile.build / rule / define, the tool objects, flags_vars, _install_files, _build_commands ...) are recorded opaque calls with abstract results; Variable objects for plain-word names are constructed without the constructor\'s re.sub (it only rewrites non-word characters)',
+    'assumptions': ['emitter contracts (contracts/emitters.py): the step object is abstract (arbitrary field values), its dependency lists have the lengths 0..2 (list concatenation is uniform in the length; not an induction), callees (multitarget_rule, command_build, Makefile.rule / NinjaFile.build / default / rule / define, the tool objects, flags_vars, _install_files, _build_commands ...) are recorded opaque calls with abstract results; Variable objects for plain-word names are constructed without the constructor\'s re.sub (it only rewrites non-word characters)',
                     'specs/ninja_eval.py reads build.ninja as ninja would (written from the ninja manual; no ninja binary in the sandbox; build.ninja itself is written with a stub `ninja` that only answers --version)',
                     'documented backend-specific differences normalised away: Ninja-only -fdiagnostics-color, Make directory sentinels, the stamp file of a step with several outputs and the depfixer line, the regeneration statement, a leading ./',
                     'the installed mopack cannot start (pkg_resources missing): projects that need it get a stub `mopack` written by the harness that answers only resolve / list-files / linkage'],
